@@ -151,8 +151,30 @@ Definition check_decode (ts : list N) : list N :=
   | None => v_bad
   end.
 
+(* kind 6 (end-to-end rig): [6; flags; got; yiaddr; dst_ip; dst_mac*6; req_mac*6] -- an OFFER captured
+   on the wire for a DISCOVER sent with these flags from this hardware address *)
+Definition check_wire_dest (ts : list N) : list N :=
+  match ts with
+  | flags :: got :: yiaddr :: dst :: r =>
+    match tok_take 6 r with
+    | Some (dmac, r2) =>
+      match tok_take 6 r2 with
+      | Some (rmac, []) =>
+        if got =? 0 then v_diff [1]                          (* a valid DISCOVER was not answered *)
+        else if negb (dst =? (if N.testbit flags 15 then 4294967295 else yiaddr)) then v_viol 6
+        else if negb (dst =? reply_dest flags yiaddr) then v_diff [reply_dest flags yiaddr]
+        else if negb (bytes_eqb dmac rmac) then v_diff (2 :: rmac)
+        else v_ok (11 + N.b2n (N.testbit flags 15))
+      | _ => v_bad
+      end
+    | None => v_bad
+    end
+  | _ => v_bad
+  end.
+
 Definition check_C12 (ts : list N) : list N :=
   match ts with
+  | 6 :: r => check_wire_dest r
   | 1 :: r => check_flags r
   | 2 :: r => check_frame r
   | 3 :: r => check_roundtrip r
